@@ -243,6 +243,13 @@ async fn applied_oracle(out: &mut Out, layout: &str, rid: u64, rs: &RecoveredSta
                 }
             }
             crate::enc::MCrdt::H(h) => {
+                if h.iter().any(|(_, l)| l.v.is_none() && !l.tomb) {
+                    // a field register that is neither a value nor a tombstone: not something a replica
+                    // produces (boundary stream only; the string case above skips the same shape — the
+                    // re-materialisation of such crafted registers is C06's robustness note bad-delta)
+                    out.count("excluded:read-of-hash-with-crafted-empty-register");
+                    continue;
+                }
                 let reply = state.execute(Command::HGetAll(k.clone())).await;
                 let mut want_f: Vec<(Vec<u8>, Vec<u8>)> = h.iter().filter(|(_, l)| !l.tomb).filter_map(|(f, l)| l.v.clone().map(|v| (f.as_bytes().to_vec(), v))).collect();
                 want_f.sort();
@@ -459,7 +466,7 @@ impl Real {
         out.op(format!("RESET {}", rid), "ok".into());
         r
     }
-    fn log(&mut self, out: &mut Out, op: String, ans: String) {
+    pub fn log(&mut self, out: &mut Out, op: String, ans: String) {
         self.text.push_str(&op);
         self.text.push(';');
         out.op(op, ans);
@@ -488,8 +495,12 @@ impl Real {
         self.log(out, format!("TORNSEG {}", id), "ok".into());
     }
     pub async fn chk(&mut self, out: &mut Out, name: u64, last: u64, state: &HashMap<String, ReplicatedValue>) {
-        let data = CheckpointWriter::new(Compression::None).write(state.clone(), name, last).unwrap();
-        self.store.put(&chk_key(name), &data).await.unwrap();
+        // half of the checkpoints go through CheckpointManager::create_checkpoint (time source = the name)
+        let via_manager = (name + last) % 2 == 0 && crate::c11x::chk_via_manager(out, self, name, last, state).await;
+        if !via_manager {
+            let data = CheckpointWriter::new(Compression::None).write(state.clone(), name, last).unwrap();
+            self.store.put(&chk_key(name), &data).await.unwrap();
+        }
         let mut l: Vec<Upd> = state.iter().map(|(k, v)| (k.clone(), v.clone())).collect();
         l.sort_by(|a, b| key_cmp(&a.0, &b.0));
         self.chk_content = l.clone();
@@ -515,21 +526,52 @@ impl Real {
         self.log(out, "MSAVE".into(), "ok".into());
     }
     /// append WAL entries through the real rotator (several files), entry timestamp = the
-    /// delta's Lamport time as `ReplicatedShardedState` does
-    pub fn set_wal(&mut self, out: &mut Out, entries: &[Upd], file_size: usize) {
+    /// delta's Lamport time as `ReplicatedShardedState` does.  `truncate`: after the appends the
+    /// rotator's `truncate_before(t)` runs (what the server does once segments up to `t` are
+    /// streamed) — with interleaved shard clocks it removes files from the MIDDLE of the
+    /// sequence; the WAL the model is given is what the SURVIVING files hold (file membership is
+    /// tracked here by watching the directory after every append, not by reading the files back).
+    pub fn set_wal_truncated(&mut self, out: &mut Out, entries: &[Upd], file_size: usize, truncate: Option<u64>) -> Vec<Upd> {
+        use redis_sim::streaming::WalStore;
         self.wal_store = InMemoryWalStore::new();
         let mut rot = WalRotator::new(self.wal_store.clone(), file_size).unwrap();
-        self.wal.clear();
-        let mut line = format!("WAL {}", entries.len());
+        let mut by_file: BTreeMap<String, Vec<(u64, Upd)>> = BTreeMap::new();
         for (k, v) in entries {
             let ts = v.timestamp.time;
             let d = ReplicationDelta::new(k.clone(), v.clone(), ReplicaId::new(self.rid));
             rot.append(&WalEntry::from_delta(&d, ts).unwrap()).unwrap();
-            self.wal.push((ts, (k.clone(), v.clone())));
-            line.push_str(&format!(" {} {} {}", ts, hex(k.as_bytes()), MRv::from_real(v).show()));
+            // the entry went into the newest file of the directory
+            let newest = self.wal_store.list().unwrap().into_iter().max().unwrap_or_default();
+            by_file.entry(newest).or_default().push((ts, (k.clone(), v.clone())));
         }
         rot.sync().unwrap();
+        out.count(&format!("wal:files={}", if by_file.len() >= 3 { ">=3".to_string() } else { by_file.len().to_string() }));
+        if let Some(t) = truncate {
+            let before: Vec<String> = self.wal_store.list().unwrap();
+            let _ = rot.truncate_before(t);
+            let after: Vec<String> = self.wal_store.list().unwrap();
+            let deleted: Vec<&String> = before.iter().filter(|n| !after.contains(n)).collect();
+            let hole = deleted.iter().any(|d| after.iter().any(|a| a < *d) && after.iter().any(|a| a > *d));
+            out.count(if deleted.is_empty() { "wal:truncate:nothing-deleted" } else if hole { "wal:truncate:MIDDLE-file-deleted(hole in the sequence)" } else { "wal:truncate:prefix-deleted" });
+            by_file.retain(|n, _| after.contains(n));
+        }
+        drop(rot);
+        self.wal.clear();
+        let mut survivors: Vec<Upd> = Vec::new();
+        let n: usize = by_file.values().map(|v| v.len()).sum();
+        let mut line = format!("WAL {}", n);
+        for (_, es) in &by_file {
+            for (ts, (k, v)) in es {
+                self.wal.push((*ts, (k.clone(), v.clone())));
+                survivors.push((k.clone(), v.clone()));
+                line.push_str(&format!(" {} {} {}", ts, hex(k.as_bytes()), MRv::from_real(v).show()));
+            }
+        }
         self.log(out, line, "ok".into());
+        survivors
+    }
+    pub fn set_wal(&mut self, out: &mut Out, entries: &[Upd], file_size: usize) {
+        let _ = self.set_wal_truncated(out, entries, file_size, None);
     }
     pub async fn rec(&mut self, out: &mut Out) -> Result<RecoveredState, RecoveryError> {
         let rm = RecoveryManager::new(self.store.clone(), PREFIX, self.rid);
@@ -680,6 +722,12 @@ async fn layout(out: &mut Out, rng: &mut Rng, ups: &[Upd], force_chk_first: bool
     }
     real.msave(out).await;
     out.count(&format!("layout:segments={}", real.man.segments.len()));
+    if rng.chance(1, 3) {
+        crate::c11x::extras(out, rng, &mut real, ups).await;
+    }
+    if rng.chance(1, 6) {
+        crate::c11x::covering_checkpoint(out, rng, &mut real).await;
+    }
     let r = real.rec(out).await;
     let persisted = real.persisted();
     let inv = manifest_inv(&real.man);
@@ -880,9 +928,17 @@ async fn case(out: &mut Out, rng: &mut Rng, corpus: Option<&str>) {
         if rng.chance(1, 2) {
             rng.shuffle(&mut wal);
         }
-        let fsz = *rng.pick(&[64usize, 300, 1 << 20]);
-        real.set_wal(out, &wal, fsz);
+        let fsz = *rng.pick(&[64usize, 300, 300, 700, 1 << 20]);
+        // half of the WALs went through truncate_before at a stamp of the set (just below / at / above)
+        let truncate = if rng.chance(1, 2) && !wal.is_empty() {
+            let t = wal[rng.below(wal.len() as u64) as usize].1.timestamp.time;
+            Some((t + rng.below(3)).saturating_sub(1))
+        } else {
+            None
+        };
+        let wal = real.set_wal_truncated(out, &wal, fsz, truncate);
         let r = real.recwal(out).await;
+        crate::c11x::production_startup(out, &mut real).await;
         let persisted = real.persisted();
         wal_oracle(out, &real, &r, &persisted, &wal);
         if let Some((state, snap)) = real.apply(out, &r, "APPLYWAL").await {
@@ -933,9 +989,15 @@ fn wal_oracle(out: &mut Out, real: &Real, r: &Result<RecoveredState, RecoveryErr
                     Some(u) => MRv::from_real(&v.merge(u)) != MRv::from_real(u),
                 });
                 let hwm = real.man.segments.iter().map(|s| s.max_timestamp).max().unwrap_or(0);
-                let sig = if lost { "C11:wal-hwm-filter:update-lost" } else { "C11:wal-hwm-filter:entry-dropped-but-covered" };
+                // cause first: the high-water-mark filter drops exactly the entries stamped below the mark;
+                // anything else that is missing was lost for another reason (e.g. a file of the WAL
+                // directory that was never read)
+                let below_hwm = real.wal.iter().filter(|(ts, (k, v))| dropped.contains(&format!("{} {}", hex(k.as_bytes()), MRv::from_real(v).show())) && *ts < hwm).count();
+                // the filter drops EVERY entry below the mark and nothing else
+                let all_below = real.wal.iter().filter(|(ts, _)| *ts < hwm).count();
+                let sig = if !lost { "C11:wal-hwm-filter:entry-dropped-but-covered" } else if below_hwm == dropped.len() && all_below == dropped.len() { "C11:wal-hwm-filter:update-lost" } else { "C11:wal:entry-of-surviving-file-not-recovered" };
                 if lost {
-                    out.violation(sig, "recover_with_wal drops a WAL entry whose stamp is below the high-water mark of the flushed segments although no segment holds that update",
+                    out.violation(sig, "recover_with_wal does not return an entry that is present in a surviving WAL file (and no segment holds that update)",
                         json!({"layout": real.text, "high_water": hwm, "dropped": dropped}));
                 } else {
                     out.count(&format!("oracle-info:{}", sig));
@@ -961,14 +1023,19 @@ pub fn run(a: &Args) {
     let rt = tokio::runtime::Builder::new_current_thread().enable_all().build().unwrap();
     rt.block_on(async {
         // corpus first (known findings must reproduce on every run)
-        case(&mut out, &mut Rng::new(0xC11), Some("hwm")).await;
-        case(&mut out, &mut Rng::new(0xC11), Some("chk-first")).await;
-        case(&mut out, &mut Rng::new(0xC11), Some("chk-tombstone")).await;
-        for _ in 0..a.n {
+        { let mark = out.n_ops(); if let Err(msg) = crate::c12::guarded(case(&mut out, &mut Rng::new(0xC11), Some("hwm"))).await { crate::c12::report_panic(&mut out, "C11", "corpus", "hwm", mark, &msg); } }
+        { let mark = out.n_ops(); if let Err(msg) = crate::c12::guarded(case(&mut out, &mut Rng::new(0xC11), Some("chk-first"))).await { crate::c12::report_panic(&mut out, "C11", "corpus", "chk-first", mark, &msg); } }
+        { let mark = out.n_ops(); if let Err(msg) = crate::c12::guarded(case(&mut out, &mut Rng::new(0xC11), Some("chk-tombstone"))).await { crate::c12::report_panic(&mut out, "C11", "corpus", "chk-tombstone", mark, &msg); } }
+        for i in 0..a.n {
             let mut r = rng.fork();
-            case(&mut out, &mut r, None).await;
+            let mark = out.n_ops();
+            if let Err(msg) = crate::c12::guarded(case(&mut out, &mut r, None)).await {
+                crate::c12::report_panic(&mut out, "C11", "layout", &format!("seed {} case {}", a.seed, i), mark, &msg);
+                // the model's state is unknown after a torn case: start the next one cleanly
+            }
         }
     });
     let _: Value = json!(null);
+    crate::stream_api::report(&mut out, "C11");
     out.finish("case = one generated update set (1..3 replicas × 1..16 shards, each (replica, shard) a real ShardReplicaState with its own Lamport clock, clocks started at 0/3/17/100/1000, remote stamps far ahead, LWW writes / deletes / hash writes / hash deletes on 6 colliding keys, 1/8 with type changes, 1/10 with structured random values) laid out twice into checkpoint / covered segments / 0..5 segments (updates duplicated 1/5, shuffled 1/2) through the real Manifest API, plus a WAL (2/3) and a missing-segment variant (1/8); distinct by the op text of both layouts; non-trivial iff the recovered fold has more than one key or more than two persisted updates, or a WAL is replayed");
 }
